@@ -9,6 +9,7 @@ void memReset();
 void traceDumpDiff();
 void traceNote(const char* kind, int64_t a, int64_t b, int64_t c);
 uint64_t currentSeed();
+uint64_t switchCount();   // task switches so far in this run
 void noPreemptEnter();
 void noPreemptLeave();
 }
